@@ -66,17 +66,19 @@ def main(tier_):
         nodes = []
         for n in trees[c["tree"]]["nodes"]:
             nodes.append(dict(id=1000 + len(nodes), p=n["p"], n=n["n"], k="hard", b=str(n["id"])) if n["k"] == "hard" else node_to_pv(n))
+        lc = dict(rootops_static.lib_call(c), api="c" if ci % 2 else "rust")      # both API surfaces (the C ABI works on borrowed roots: RootRef)
         for bname, feat in rootops_static.FEATS:
-            static_cases.append(dict(id="static|%d|%s" % (ci, bname), tree=nodes, feat=feat, trace=True, raw=False, calls=[rootops_static.lib_call(c)],
-                                     meta=dict(tree=c["tree"], call=rootops_static.lib_call(c), acts=[], ks=[], static=True)))
+            static_cases.append(dict(id="static|%d|%s" % (ci, bname), tree=nodes, feat=feat, trace=True, raw=False, calls=[lc],
+                                     meta=dict(tree=c["tree"], call=lc, acts=[], ks=[], static=True)))
     # plus remove_all / mkdir_all with dot names (not in RootOps' single-entry op set)
     from checks.scenarios import OPS_TREE
     for path in ("..", ".", "a/..", "a/sub/..", "a/.", "la/..", "a/esc/..", "d_full/y/../..", "../..", "a/esc"):
         for op in ("remove_all", "mkdir_all", "remove_dir", "remove_file"):
             for bname, feat in rootops_static.FEATS:
-                call = dict(op=op, path=path, mode=0o755) if op == "mkdir_all" else dict(op=op, path=path)
-                static_cases.append(dict(id="static-dot|%s|%s|%s" % (op, path, bname), tree=OPS_TREE, feat=feat, trace=True, raw=False, calls=[call],
-                                         meta=dict(tree="ops", call=call, acts=[], ks=[], static=True)))
+                for api in ("rust", "c"):
+                    call = dict(op=op, path=path, mode=0o755, api=api) if op == "mkdir_all" else dict(op=op, path=path, api=api)
+                    static_cases.append(dict(id="static-dot|%s|%s|%s|%s" % (op, path, bname, api), tree=OPS_TREE, feat=feat, trace=True, raw=False, calls=[call],
+                                             meta=dict(tree="ops", call=call, acts=[], ks=[], static=True)))
     # ---- attacker sweeps
     bl_cases, bl_index = [], []
     for tname, nodes in race.RACE_TREES.items():
